@@ -1241,7 +1241,8 @@ def main(argv: list[str]) -> int:
     ncli = 48 if thorough else 8
     rnd = random.Random(seed + 99)
     cli_maps = [maps["disallow_untyped_defs"], maps["strict_optional"], maps["ignore_errors"]]
-    with ThreadPoolExecutor(min(12, nproc)) as ex:
+    with ThreadPoolExecutor(nproc + 2) as ex:
+        cw_f = [ex.submit(_cli_witness, (i, root)) for i in range(len(CLI_WITNESS))]   # run alongside the sample
         cbase = {(d, val): diag for d, val, diag in
                  ex.map(_cli_baseline, [(root, m["dest"], val) for m in cli_maps for val in (True, False)])}
         if not any(any(x.values()) for x in cbase.values()):
@@ -1262,7 +1263,7 @@ def main(argv: list[str]) -> int:
             cli_evals += out["evals"]
             if out["viol"]:
                 cbad.append(out)
-        cw = list(ex.map(_cli_witness, [(i, root) for i in range(len(CLI_WITNESS))]))
+        cw = [f.result() for f in cw_f]
         for e in cw:
             if "machinery" in e:
                 raise MachineryError(e["machinery"])
